@@ -169,6 +169,39 @@ def check_valid_file(rec, demos, rng, idx, path, n, edges, opt, dim, tier, timeo
         rec.tag('mcb-dimacs-mpi[%s,P=%d]' % (an, P))
 
 
+def check_large_valid_file(rec, demos, rng, idx, path, n, m, opt, dim, timeout):
+    """valid files with tens of thousands of vertices: only the signed variants are affordable there (the tree-based ones need
+    minutes and gigabytes), collection-stats is skipped for the same reason"""
+    case0 = dict(n=n, m=m, optimum=opt, cycle_space_dim=dim, file='(%d lines; head) ' % (m + 1) + open(path).read()[:300])
+    runs = []
+    for par in (False, True):
+        mf = ['--parallel=%s' % ('true' if par else 'false')] + (['--cores=%d' % rng.choice([1, 2, 4])] if par else []) + rng.choice([[], ['--signed=true'], ['--verbose=false']])
+        runs.append(('mcb-dimacs', [demos['mcb-dimacs']] + mf + [path], None))
+    k = rng.choice([2, 3])
+    runs.append(('approx-mcb-dimacs', [demos['approx-mcb-dimacs'], '--k=%d' % k, '--parallel=%s' % rng.choice(['true', 'false']), path], k))
+    runs.append(('mcb-dimacs-mpi', mpirun.MPIEXEC + ['-n', '2', demos['mcb-dimacs-mpi'], path], None))
+    for prog, cmd, k in runs:
+        r = run_proc(cmd, timeout); rec.launches += 1
+        case = dict(case0, program=prog, cmd=' '.join(x for x in cmd if x.startswith('--')))
+        if r['timed_out']:
+            r = run_proc(cmd, timeout)
+            if r['timed_out']:
+                rec.viol('%s:hang_on_valid_input' % prog, 'did not terminate within %ds twice on a valid file with %d vertices' % (timeout, n), case, idx=idx)
+            else:
+                rec.inconclusive('%s on a large file: watchdog fired once and not again' % prog)
+            continue
+        w = parse_weight(r['out'])
+        if r['rc'] != 0:
+            rec.viol('%s:nonzero_on_valid_input' % prog, 'exit status %d on a valid file with %d vertices and %d edges' % (r['rc'], n, m), case, dict(stderr=r['err'][-500:], stdout=r['out'][-300:]), idx)
+        elif w is None:
+            rec.viol('%s:no_weight_line' % prog, 'no single "MCB weight = X" line on stdout (n=%d)' % n, case, dict(stdout=r['out'][-500:]), idx)
+        elif k is None and w != float(opt):
+            rec.viol('%s:wrong_weight' % prog, 'printed MCB weight %s, optimum is %d (n=%d)' % (w, opt, n), case, dict(stdout=r['out'][-500:]), idx)
+        elif k is not None and not (opt <= w <= (2 * k - 1) * opt):
+            rec.viol('approx-mcb-dimacs:weight_out_of_bounds', 'printed weight %s not in [OPT, (2k-1)OPT] = [%d, %d] (n=%d)' % (w, opt, (2 * k - 1) * opt, n), case, dict(stdout=r['out'][-500:]), idx)
+        rec.tag('%s[large file, signed]' % prog)
+
+
 def check_invalid_file(rec, demos, rng, idx, path, kinds, tier, timeout, mpi_ranks):
     case0 = dict(violations=kinds, file=open(path).read()[:600])
     def judge(prog, r, case):
@@ -214,10 +247,19 @@ def check_c11(tier, seed, only=None):
     tmp = tempfile.mkdtemp(prefix='c11-', dir=lib.tree_dir())
     timeout = 60 if tier == 'quick' else 120
 
+    nlarge = 3 if tier == 'quick' else 16
+
     def one(i):
         rng = random.Random(seed * 1000003 + i)
-        n, edges = dimacs_gen.gen_valid(rng, max_n=22 if tier == 'quick' else 36)
         path = os.path.join(tmp, 'g%d.dimacs' % i)
+        if i >= nfiles:
+            n, E, opt, dim = dimacs_gen.gen_large_valid(rng)
+            dimacs_gen.write_dimacs(path, n, [(u, w_, str(x)) for u, w_, x in E], rng, trailing_newline=rng.random() < 0.8, omit_unit=rng.random() < 0.6)
+            check_large_valid_file(rec, demos, rng, i, path, n, len(E), opt, dim, 300)
+            rec.case('large-%d-%d' % (seed, i), dim >= 1, ['valid', 'large:n>=46341'] + (['large:n>65535'] if n > 65535 else []), dict(kind='valid-large', n=n, m=len(E), optimum=opt, cycle_space_dim=dim))
+            os.unlink(path)
+            return
+        n, edges = dimacs_gen.gen_valid(rng, max_n=22 if tier == 'quick' else 36)
         ranks = rng.sample(ranks_all, 2 if tier == 'quick' else 3)
         if max(ranks) < 2:
             ranks[0] = rng.choice([2, 3, 4])
@@ -241,11 +283,11 @@ def check_c11(tier, seed, only=None):
         os.unlink(path)
     try:
         with ThreadPoolExecutor(max_workers=8) as ex:
-            list(ex.map(one, range(nfiles) if only is None else only))
+            list(ex.map(one, range(nfiles + nlarge) if only is None else only))
     finally:
         shutil.rmtree(tmp, ignore_errors=True)
     v.absorb(rec.agg)
-    cov = lib.base_coverage(rec.agg, 'generated DIMACS files (2/3 valid: random, grids, cycles with chords, complete, bipartite, trees, disconnected, weights of 1 written or omitted at random so that weighted and weight-less lines mix; 1/3 invalid: self-loop / parallel edge / weight <= 0 and combinations at random positions) '
+    cov = lib.base_coverage(rec.agg, 'generated DIMACS files (a few valid files with 46341..70000 vertices - small cyclic core plus pendant forest, signed variants only - and otherwise 2/3 valid: random, grids, cycles with chords, complete, bipartite, trees, disconnected, weights of 1 written or omitted at random so that weighted and weight-less lines mix; 1/3 invalid: self-loop / parallel edge / weight <= 0 and combinations at random positions) '
                             'fed to mcb-dimacs, approx-mcb-dimacs, collection-stats-dimacs and mcb-dimacs-mpi (mpiexec -n P, P sampled from {1,2,3,4,8}) under random option combinations '
                             '(algorithm x --parallel x --cores x --verbose x --printcycles, k in 0..4); oracle: exit status, stderr diagnostic, absence/presence and value of the "MCB weight" line against an '
                             'independent Python Horton+Gauss optimum, termination within a watchdog (one re-run); non-trivial = invalid file, or valid file with a cycle; distinct by file',
